@@ -68,7 +68,7 @@ def repo_files():
     out += [os.path.join(REPO, "Cargo.toml"), os.path.join(REPO, "Cargo.lock")]
     return [p for p in out if os.path.exists(p)]
 
-GENERATED_V = ("TablesGen.v", "ConstsGen.v", "SrcGen.v", "SrcTieLevel.v", "SrcTieTables.v", "SrcTiePreds.v", "SrcTieDir.v", "SrcTieBaseDir.v", "SrcTieL1.v", "SrcTiePipe.v", "SrcTieUtf16.v", "SrcTieUtf16Iter.v")
+GENERATED_V = ("TablesGen.v", "ConstsGen.v", "SrcGen.v", "SrcTieLevel.v", "SrcTieTables.v", "SrcTiePreds.v", "SrcTieDir.v", "SrcTieBaseDir.v", "SrcTieL1.v", "SrcTiePipe.v", "SrcTieUtf16.v", "SrcTieUtf16Iter.v", "SrcAgreeExplicit.v")
 
 def verif_files():
     out = []
@@ -92,13 +92,15 @@ def write_if_changed(path, content):
     if old != content:
         open(path, "w").write(content)
 
-TIE_TEMPLATES = ["SrcTieLevel", "SrcTieTables", "SrcTiePreds", "SrcTieDir", "SrcTieBaseDir", "SrcTieL1", "SrcTiePipe", "SrcTieUtf16", "SrcTieUtf16Iter"]
+TIE_TEMPLATES = ["SrcTieLevel", "SrcTieTables", "SrcTiePreds", "SrcTieDir", "SrcTieBaseDir", "SrcTieL1", "SrcTiePipe", "SrcTieUtf16", "SrcTieUtf16Iter", "SrcAgreeExplicit"]
 # which properties lean on which translated-source tie file
 TIE_PROPS = {"C19": ["Proofs/SrcTieLevel.v"], "C14": ["Proofs/SrcTieTables.v"], "C15": ["Proofs/SrcTieTables.v"],
-             "C01": ["Proofs/SrcTiePreds.v", "Proofs/SrcTiePipe.v"], "C11": ["Proofs/SrcTieLevel.v"],
+             "C01": ["Proofs/SrcTiePreds.v", "Proofs/SrcTiePipe.v", "Proofs/SrcAgreeExplicit.v"], "C11": ["Proofs/SrcTieLevel.v", "Proofs/SrcAgreeExplicit.v"],
+             "C13": ["Proofs/SrcAgreeExplicit.v"],
              "C03": ["Proofs/SrcTieL1.v"], "C18": ["Proofs/SrcTieUtf16.v", "Proofs/SrcTieUtf16Iter.v"], "C09": ["Proofs/SrcTieUtf16.v"], "C16": ["Proofs/SrcTieBaseDir.v"], "C17": ["Proofs/SrcTieDir.v"]}
 # the lemmas of a shared tie file a property leans on (None / absent = all of the file)
-TIE_LEMMAS = {"C11": ["tie_max_depths", "tie_new_explicit", "tie_next_ltr", "tie_next_rtl", "tie_raise", "tie_lowest_ge_rtl"]}
+TIE_LEMMAS = {"C11": ["tie_max_depths", "tie_new_explicit", "tie_next_ltr", "tie_next_rtl", "tie_raise", "tie_lowest_ge_rtl",
+                      "agree_explicit_short", "agree_explicit_two_units", "agree_explicit_at_the_limit"]}
 # a tie file that stops compiling is a broken obligation, except where the correspondence is EXHAUSTIVE over
 # the function's whole (finite) domain and is therefore a complete tie on its own
 TIE_FALLBACK_EXHAUSTIVE = {"C14", "C15"}
@@ -245,7 +247,7 @@ def stage_coq():
             if lines[ln].startswith("(*@ endblock"): break
         if not bid or bid in failed_blocks: break
         end = next((k for k in range(start, len(lines)) if lines[k].startswith("(*@ endblock")), len(lines) - 1)
-        failed_blocks[bid] = re.findall(r"^\s*(?:Lemma|Corollary|Theorem)\s+(\w+)", "\n".join(lines[start:end]), re.M)
+        failed_blocks[bid] = re.findall(r"^\s*(?:Lemma|Corollary|Theorem|Example)\s+(\w+)", "\n".join(lines[start:end]), re.M)
         log("tie block %s (%s) no longer checks against the current source; isolating it" % (bid, ", ".join(failed_blocks[bid])))
         save_failed_blocks(failed_blocks)
         tr = stage_translate(tmp, exclude=excluded)
@@ -561,12 +563,12 @@ def proof_status(prop, coq):
         tsrc = os.path.join(COQ, tf)
         if not os.path.exists(tsrc): continue
         txt = re.sub(r"\(\*.*?\*\)", "", open(tsrc).read(), flags=re.S)
-        lem = re.findall(r"^\s*(?:Lemma|Corollary)\s+(tie_\w+)", txt, re.M)
+        lem = re.findall(r"^\s*(?:Lemma|Corollary|Example)\s+((?:tie|agree)_\w+)", txt, re.M)
         n = len(re.findall(r"^\s*(?:Theorem|Lemma|Corollary|Example|Fact|Proposition|Remark)\s", txt, re.M))
         obligations += n
         vo = os.path.join(COQ, tf + "o")
         tpl = open(os.path.join(COQ, tf + ".in")).read() if os.path.exists(os.path.join(COQ, tf + ".in")) else ""
-        mine_failed = [l for l in re.findall(r"^\s*(?:Lemma|Corollary)\s+(tie_\w+)", tpl, re.M) if l in failed_lemmas]
+        mine_failed = [l for l in re.findall(r"^\s*(?:Lemma|Corollary|Example)\s+((?:tie|agree)_\w+)", tpl, re.M) if l in failed_lemmas]
         if os.path.exists(vo) and tf[:-2] not in failed_set:
             discharged += n; tie["established"] += lem
         else:
@@ -585,7 +587,8 @@ def proof_status(prop, coq):
                 "Proofs/SrcTieDir.v": "lib::para_direction", "Proofs/SrcTieBaseDir.v": "lib::get_base_direction_impl",
                 "Proofs/SrcTieL1.v": "lib::reorder_levels",
                 "Proofs/SrcTiePipe.v": ("lib::assign_levels_to_removed_chars", "implicit::resolve_levels"),
-                "Proofs/SrcTieUtf16.v": ("utf16::TextSource", "utf16::is_"), "Proofs/SrcTieUtf16Iter.v": ("utf16::Iterator", "utf16::DoubleEnded")}[tf]
+                "Proofs/SrcTieUtf16.v": ("utf16::TextSource", "utf16::is_"), "Proofs/SrcTieUtf16Iter.v": ("utf16::Iterator", "utf16::DoubleEnded"),
+                "Proofs/SrcAgreeExplicit.v": "explicit::"}[tf]
         for r, why in skipped.items():
             if r.startswith(stem):
                 tie["notes"].append("not translated: %s (%s); the correspondence run is the only tie for it" % (r, why))
